@@ -695,15 +695,24 @@ def run(ctx):
         preds.append(("must_reject", {"b": xb(raw), "why": why}))
 
     # ---- run both sides (implementation spread over the cores: scalar multiplication is 17-45 ms)
+    # (requests are dealt out in a seeded random order so that the expensive secp256k1 lines are spread evenly)
     reqs = [l for _, l, _ in lines]
-    answers = batch_parallel(drv, [model_line(l) for l in reqs], workers=ctx.workers)
-    impls = pmap(impl_line, reqs, workers=ctx.workers)
+    order = list(range(len(reqs)))
+    random.Random(f"C03-order:{ctx.seed}").shuffle(order)
+    shuffled = [reqs[i] for i in order]
+    ans_s = batch_parallel(drv, [model_line(l) for l in shuffled], workers=ctx.workers)
+    imp_s = pmap(impl_line, shuffled, workers=ctx.workers)
+    answers, impls = [None] * len(reqs), [None] * len(reqs)
+    for pos, i in enumerate(order):
+        answers[i], impls[i] = ans_s[pos], imp_s[pos]
     for (kind, line, nontriv), model, impl in zip(lines, answers, impls):
         if rec.compare(kind, {"line": line}, impl, model, determined=True, key=line[:300], nontrivial=nontriv):
             rec.sample(kind, {"request": line[:200], "answer": model[:200]})
         if impl == REJECT:
             rec.count(kind + ":reject")
-    results = pmap(_eval_pred_pair, preds, workers=ctx.workers)
+    heavy = {"group_axioms": 0, "field_axioms": 1}
+    preds.sort(key=lambda kc: (heavy.get(kc[0], 2), -kc[1].get("p", 0)))   # stable: long-running cases first
+    results = pmap(_eval_pred_pair, preds, workers=ctx.workers, chunksize=1)
     for (kind, case), (ok, got, want) in zip(preds, results):
         if ok:
             rec.ok(kind, repr(case)[:300])
